@@ -66,8 +66,5 @@ TABLE = [
     ("CENSUS_V5_DESER_UNWRAPS", V5, r"data\[\d+\.\.\d+\]\.try_into\(\)\.unwrap\(\)", "count"),
     ("CENSUS_MOD_DESER_UNWRAPS", MOD, r"data\[\d+\.\.\d+\]\.try_into\(\)\.unwrap\(\)", "count"),
     ("CENSUS_MOD_UNREACHABLE", MOD, r"unreachable!\(\)(?=.*\n#\[cfg\(test\)\]\n#\[expect\()", "count"),
-    # the C24 repair (a v5 reference-id request with a payload that is not a whole number of words is
-    # rejected by ExtensionField::decode): 1 when present, 0 on the unrepaired tree
-    ("C24_REPAIR", EF, r"if !request\.payload_len\(\)\.is_multiple_of\(4\) \{\s+return Err\(ParsingError::IncorrectLength\);", "count"),
     ("CENSUS_KS_DECODE_UNWRAPS", KS, r"try_from\((?:s2c|c2s)\)\.unwrap\(\)", "count"),
 ]
